@@ -58,6 +58,15 @@ def query(ctx, g, gd, a, b, C, gkey=None):
     cond = (set(Cv) if k == 0 else frozenset(Cv) if k == 1 else list(Cv) if k == 2 else tuple(reversed(Cv)) if k == 3 else
             (v for v in Cv) if k == 4 else iter(Cv) if k == 5 else (None if not Cv else set(Cv)))
     kernel.count("C04:conditions-form:" + ("set", "frozenset", "list", "tuple", "generator", "iterator", "none-or-set")[k])
+    if sum(map(ord, a + b)) % 6 == 1:
+        # the caller has used the graph before and edited the ancestor / descendant sets it was handed
+        with kernel.quiet():
+            for m_ in sorted(C)[:2] + [a, b]:
+                d_ = g.descendants_inclusive(Variable(m_))
+                d_.discard(Variable(m_))
+                a_ = g.ancestors_inclusive({Variable(m_)})
+                a_.clear()
+        kernel.count("C04:queries-after-the-caller-edited-returned-sets")
     try:
         r = are_d_separated(g, Variable(a), Variable(b), conditions=cond)
     except Exception as e:  # noqa: BLE001
